@@ -224,7 +224,7 @@ Complete == agenda = <<>>
 (* prefix tokens -> tree *)
 Arity(tk) ==
   CASE tk.k \in {"DS", "Const", "Str", "Var"} -> 0
-    [] tk.k \in {"First", "Count", "Sum", "Min", "Max", "Coll", "Single", "Un", "TupIdx", "DictGet"} -> 1
+    [] tk.k \in {"First", "Count", "Sum", "Min", "Max", "Coll", "Single", "Un", "TupIdx", "DictGet", "Meta"} -> 1
     [] tk.k \in {"Select", "SelectMany", "Where", "Range", "Idx", "Bin", "Cmp"} -> 2
     [] tk.k \in {"Aggregate", "If"} -> 3
     [] tk.k \in {"And", "Or", "Tuple", "List", "Math", "UserFn"} -> tk.n
